@@ -39,20 +39,37 @@ LEAN = {"module": "Pygom.Props.C02", "extra_modules": ["Pygom.Lemmas.Integrate"]
         "required": ["Pygom.C02.rows_correct", "Pygom.C02.rows_aliased", "Pygom.C02.integrate_rows",
                      "Pygom.C02.integrate2_rows", "Pygom.C02.solve_determ_rows", "Pygom.C02.method_dispatch",
                      "Pygom.C02.session_is_pure", "Pygom.C02.earlier_results_kept", "Pygom.C02.solve_reads_current",
-                     "Pygom.C02.solve2_reads_current", "Pygom.C02.stale_grid_counterexample"]}
-BUDGET = {"quick": {"fake": 240, "fake_sessions": 120, "models": 40, "catalogue": 9, "radau_every": 2, "cython": 1,
+                     "Pygom.C02.solve2_reads_current", "Pygom.C02.stale_grid_counterexample",
+                     "Pygom.C02.row_at_requested_time", "Pygom.C02.repeated_times_equal_rows", "Pygom.C02.rows_translation_invariant",
+                     "Pygom.C02.repeated_time_shortcut_counterexample"]}
+BUDGET = {"quick": {"fake": 240, "fake_sessions": 120, "models": 114, "catalogue": 20, "radau_every": 2, "cython": 1,
                     "history": 48, "siblings": 30, "forms": 24, "entries_per_session": 5},
-          "thorough": {"fake": 4000, "fake_sessions": 2000, "models": 1500, "catalogue": 36, "radau_every": 4, "cython": 8,
+          "thorough": {"fake": 4000, "fake_sessions": 2000, "models": 2280, "catalogue": 60, "radau_every": 4, "cython": 8,
                        "history": 240, "siblings": 160, "forms": 100, "entries_per_session": 5}}
 RULE = ("fake-integrator cases: random entry point (integrateFuncJac, integrate2, _integrate2, integrate, solve_determ), "
-        "1-4 states, dyadic x0/c/t0, grid kind (uniform, non-uniform incl. repeated/unsorted times, one point, scalar, empty, "
+        "1-4 states, dyadic x0/c/t0 (a quarter with t0 moved by +-738000, +-1e4, 2^20, -2^24; spacings down to 1/1024), grid kind (uniform, non-uniform incl. repeated/unsorted times, one point, scalar, empty, "
         "not-a-time, None), container (list/tuple/ndarray/int/float/np.float64), method in {None,lsoda,vode,ivode,dopri5,dop853, "
         "unknown strings}, full_output, includeOrigin, random aliasing table per integrator, random eigenvalue summary (incl. the "
         "thresholds 0 and -2 exactly); non-trivial when the call returned rows that agree with the model. "
-        "Runtime cases: autonomous random models from harness/gen.py (1-4 states, 1-4 events, all routes, derived parameters, "
+        "Runtime cases: random models from harness/gen.py (1-4 states, 1-4 events, all routes, derived parameters, "
         "explicit ODE terms; parameters in [1/8,1], x0 in [1/4,2], horizon min(Tmax, 2/|J(x0)|), uniform or non-uniform grid of "
-        "2-8 points, list or ndarray) and catalogue models of pygom.common_models (SIS, SIR, SEIR, Lotka_Volterra, SIR_norm, "
-        "FitzHugh, vanDerPol, Lorenz and the stiff Robertson system (odeint / lsoda / bdf entry points only); equations re-written by hand from their docstrings) x 43 entry-point configurations "
+        "2-8 points, list or ndarray), families dealt from a deck by weight: general autonomous 10, general with time-dependent (periodic) "
+        "rates 3, one state / one parameter 2, and models at most FIRST ORDER IN THE STATES (linear_ode() is True): pure linear chains 3, "
+        "constant inflow / birth 4, constant explicit ODE terms 4, time-dependent coefficients multiplying states 4, mixtures 4, symmetric "
+        "Jacobian 2, all-zero Jacobian (constant and time-only terms) 2 - each routed as events only, explicit ODE terms only or any API route; "
+        "BOUNDARY VALUES: 12 % with parameters exactly zero, 12 % with initial states exactly zero (some or all); "
+        "and catalogue models of pygom.common_models (SIS, SIR, SEIR, Lotka_Volterra, SIR_norm, "
+        "FitzHugh, vanDerPol, Lorenz, the time-dependent SIS_Periodic and the stiff Robertson system (odeint / lsoda / bdf entry points only); "
+        "equations re-written by hand from their docstrings / source). SCENARIO of every runtime case: t0 near the origin (0, 1/2, -1, 3) or, 40 %, far "
+        "from it with both signs (+-738000, +-1e4, +-1e6, -123456.5, 1e7, 738000.5: spacing below 1e-5 |t|; a case whose whole horizon is shorter than 1e6 ulps of t is rejected), horizon x 1 / 2^-10 / 2^-20 / 2^-30 "
+        "(t0 + tiny) / x 8 for decaying models (long); GRID MODIFICATIONS (weights none 10, repeat 3, tiny 2, ulp 1, at-t0 1, ulp-from-t0 1, one 2): "
+        "times repeated twice or three times, neighbours 4 / 2^12 / 2^16 / 2^20 ulps apart (a case with a step between 32 and 2048 ulps is rejected: a "
+        "freshly started vode is silently off by 6e-6 there, measured without pygom), neighbours one ulp apart, a first time equal to t0, a first "
+        "time one ulp after t0, a one-point grid. Every row is judged against the reference integrated in the REAL time (repeated times share "
+        "a row, a time equal to t0 gets x0); on a grid with a step of at most 32 ulps an IntegrationError of the scipy.integrate.ode based entry "
+        "points is tagged `zero-length-step:*:not-judged` (unchanged scipy refuses such steps for some integrators / states), anything RETURNED is "
+        "judged; when the first output lies within 4 ulps of t0 scipy's own odeint returns uninitialised rows (lsoda: 'tout too close to t') and "
+        "the odeint-based entry points are not judged. All x 43 entry-point configurations "
         "(integrate x2, solve_determ x2, integrate2 x 6 methods x full_output, integrateFuncJac x 6 methods x full_output x "
         "includeOrigin, scalar t x3); non-trivial when the reference solution moves by >1e-3 and every configuration was judged. "
         "Fake sessions: 4-14 operations on one fresh model (initial_state / initial_time / initial_values assignments, integrate, "
@@ -61,13 +78,15 @@ RULE = ("fake-integrator cases: random entry point (integrateFuncJac, integrate2
         "non-trivial when at least two solves returned rows and everything agrees. "
         "Sessions (direct oracle only; every solve judged against the reference for its own inputs, returned arrays kept and "
         "compared after every later call with the copy taken on return, every list/array/dict handed in compared with the copy "
-        "taken before, repeated solves with equal values compared bit for bit): the 40 entry-point configurations (integrate x2, "
+        "taken before (a write into it is a side effect: tagged, a mismatch with the pure model, not a violation), repeated solves with equal values compared bit for bit): the 40 entry-point configurations (integrate x2, "
         "solve_determ x2, integrate2 x12, integrateFuncJac x24) are dealt round-robin, 5 per session. HISTORY (one instance, random "
         "model or pygom.common_models object): solve on (A, G0); then per dimension, in random order, change one of {t0, x0, "
         "parameters (redrawn or the same values bound to other names), t0 and x0, grid: same length other values / same length and "
         "end points other interior / superset / subset / last time as a scalar, t0 and grid together, container, method, "
         "full_output, includeOrigin, entry point; parameters given scipy.stats distributions (half of the time used by a random "
-        "solve_determ) and then their plain numbers again}, solve, restore, solve; only what differs from what the instance was last given "
+        "solve_determ) and then their plain numbers again; a grid with repeated times; 12 %: an assignment the unchanged pygom rejects - x0 / "
+        "parameter array of the wrong length, unknown parameter name, a string or a list as initial time - after which everything it could have touched "
+        "is assigned again (`history=...+after-rejected-input`)}, solve, restore, solve; only what differs from what the instance was last given "
         "is re-assigned (initial_time / initial_state or initial_values; parameters as dict / partial dict / (name, value) tuples / "
         "list or ndarray in declaration order). SIBLINGS: live instances with the same names - parameter list (40%: and state list) "
         "declared in another order with other values (half of the time the same values on other names), a re-defined derived "
@@ -78,13 +97,23 @@ RULE = ("fake-integrator cases: random entry point (integrateFuncJac, integrate2
         "combinations, integer x0 and t0 with a fractional grid, a grid whose first time is t0 (IntegrationError of the "
         "scipy.integrate.ode based entry points on a zero-length step is tagged, not judged). A session is non-trivial when every "
         "reference moved by >1e-3, at least one solve was judged and (history, siblings) at least one changed configuration has a "
-        "reference differing by >1e-3 from the first one's")
+        "reference differing by >1e-3 from the first one's. Sessions sit near the origin or (30 %) far from it (tbase +-738000, +-1e4, 1e6, "
+        "-1e6, -123456.5); a quarter of their generated models are first order in the states, a fifth time-dependent")
 ASSUMPTIONS = ["PARTIAL: scipy's integrators (odeint; ode: lsoda/vode/dopri5/dop853) approximate the flow within tolerance - a "
                "hypothesis of the Lean theorems (Laws S: identity + semigroup of an ideal flow), validated on every run: "
                "|row - ref| <= 1e-6 (1+|ref|) against solve_ivp DOP853 rtol=atol=1e-12 (Radau cross-check <= 1e-8 on a subset)",
                "odeint-based entry points (integrate, solve_determ) run at scipy's default tolerance 1.49e-8: on instances where "
                "scipy's own odeint on the Lean right-hand side (no pygom involved) is itself further than 5e-8 (1+|ref|) from the "
                "reference, their acceptance is 20 x that error instead of 1e-6 (tagged odeint-acceptance=20x-direct-odeint-error)",
+               "grids with a zero-length or few-ulp (<= 32) step (repeated times, a first time at or next to t0) are inside the property's domain only "
+               "where the unchanged pygom / scipy return rows: an IntegrationError of the ode-based entry points there is tagged, not judged "
+               "(which integrator refuses depends on the method, on full_output and, through the eigenvalue-driven restart, on the state); "
+               "pygom.integrate does not look at odeint's success flag, so where scipy's odeint itself fails (first output within 4 ulps of "
+               "t0) its rows are uninitialised memory - observed, outside the assumption 'the solver approximates the flow', not judged",
+               "an IntegrationError raised by an scipy.integrate.ode based entry point, or a row off the reference returned by one, is not judged "
+               "when scipy's own integrator for that method (Lean right-hand side, no pygom; one object through the grid and a fresh one per "
+               "step) fails or is off by more than 1e-7 (1+|ref|) on the same instance (observed far from the origin: derivative exactly zero "
+               "at x0 - lsoda reports illegal input; vode-bdf silently off by 3e-4 on one particular step): tagged scipy-ode-*-this-instance",
                "random runtime instances are restricted to well-conditioned ones: reference exists, |x| <= 1e3, "
                "exp(int max(mu_2(J),0) dt) <= 20 along the reference, odeint at 1e-10 within 1e-8 (1+|ref|); others are rejected, "
                "counted in the input distribution, never judged",
@@ -162,6 +191,8 @@ def gen_fake(rng):
     x0 = [dyadic(rng, -4, 4) for _ in range(n)]
     c = [dyadic(rng, -3, 3) for _ in range(n)]
     t0 = dyadic(rng, -2, 2, 4)
+    if rng.random() < 0.25:     # far from the origin, both signs (the bookkeeping must not look at the size of t)
+        t0 += rng.choice([738000, -738000, 10000, -10000, 2 ** 20, -(2 ** 24)])
     kinds = [("uniform", 4), ("nonuniform", 5), ("one", 2), ("scalar", 2), ("empty", 1), ("other", 1)]
     if entry == "_integrate2":
         kinds = [("uniform", 4), ("nonuniform", 5), ("one", 2)]
@@ -170,7 +201,7 @@ def gen_fake(rng):
     gk = gen.wchoice(rng, kinds)
     container = rng.choice(["list", "tuple", "ndarray"])
     if gk == "uniform":
-        h = Fraction(rng.randint(1, 8), 8)
+        h = Fraction(rng.randint(1, 8), rng.choice([8, 8, 8, 64, 1024]))
         k = rng.randint(2, 9)
         start = t0 + (h if rng.random() < 0.8 else 0)
         t = {"list": [fr(start + i * h) for i in range(k)]}
@@ -214,12 +245,177 @@ def gen_fake(rng):
             "includeOrigin": rng.random() < 0.5, "aliased": aliased, "eigA": coef(), "eigB": coef()}
 
 
-def gen_runtime_model(rng, idx, radau):
-    spec, meta = gen.gen_model(rng, max_states=4, max_params=4, min_events=1, max_events=4, allow_time=False,
-                               allow_range=rng.random() < 0.3, limits=False)
+T0_NEAR = ["0", "0", "1/2", "-1", "3"]
+# far from the origin, both signs: calendar-style ordinal days, 1e4 .. 1e7
+# (not further out: at |t| = 1e8 one ulp is 1.5e-8 and scipy's integrators themselves lose the 1e-8 accuracy the acceptance needs)
+T0_FAR = ["738000", "-738000", "10000", "-10000", "1000000", "-246913/2", "10000000", "-1000000", "1476001/2"]
+HSCALE_TINY = ["1/1024", "1/1048576", "1/1073741824"]
+GRID_MODS = [("none", 10), ("repeat", 3), ("tiny", 2), ("ulp", 1), ("at-t0", 1), ("ulp-from-t0", 1), ("one", 2)]
+MODEL_FAMILIES = [("general", 10), ("general-time", 3), ("tiny-model", 2), ("chain", 3), ("inflow", 4), ("const-ode", 4), ("timecoef", 4),
+                  ("mixed", 4), ("symmetric", 2), ("zero-jacobian", 2)]
+AFFINE = ("chain", "inflow", "const-ode", "timecoef", "mixed", "symmetric", "zero-jacobian")
+
+
+def gen_scenario(rng, far_ok=True, long_ok=False):
+    """where on the time axis and on what kind of grid: (t0, horizon scale, grid modifications)"""
+    far = far_ok and rng.random() < 0.4
+    t0 = rng.choice(T0_FAR if far else T0_NEAR)
+    r = rng.random()
+    if r < 0.72:
+        hs = "1"
+    elif r < 0.9:
+        hs = rng.choice(HSCALE_TINY[:1] if far else HSCALE_TINY)      # far away 2^-30 of a horizon is below one ulp
+    else:
+        hs = "8" if long_ok else "1"
+    if abs(Fraction(t0)) >= 10 ** 7:
+        hs = "1"            # a horizon of 1e-3 there is only 5e5 ulps long: the integrators' own steps are quantised
+    mods = []
+    k = gen.wchoice(rng, GRID_MODS)
+    if k == "repeat":
+        mods = [{"op": "repeat", "i": rng.randrange(8), "n": rng.choice([1, 1, 2])} for _ in range(rng.randint(1, 2))]
+    elif k == "tiny":
+        # (never between 32 and 2048 ulps: a freshly started vode is silently wrong by 6e-6 on a 64..256-ulp step at |t| = 1e6)
+        mods = [{"op": "tiny", "i": rng.randrange(8), "ulps": rng.choice([4, 2 ** 12, 2 ** 16, 2 ** 20])} for _ in range(rng.randint(1, 2))]
+    elif k == "ulp":
+        mods = [{"op": "ulp", "i": rng.randrange(8)}]
+    elif k != "none":
+        mods = [{"op": k, "i": rng.randrange(8)}]
+    return t0, hs, mods
+
+
+def _ulp_after(v):
+    """the next float after v; next to zero (where that would be a subnormal number no integrator can step to) 2^-60"""
+    v = float(v)
+    return float(np.nextafter(v, np.inf)) if abs(v) >= 1e-300 else 2.0 ** -60
+
+
+def apply_gridmods(t0, grid, mods):
+    """the float grid actually requested (deterministic in the case): repeated times, neighbours a few ulps apart,
+    a first time equal to / one ulp after t0, a one-point grid"""
+    g = [float(v) for v in grid]
+    for m in mods:
+        i = m.get("i", 0) % len(g)
+        if m["op"] == "repeat":
+            g = g[:i + 1] + [g[i]] * m.get("n", 1) + g[i + 1:]
+        elif m["op"] == "ulp":
+            g = g[:i + 1] + [_ulp_after(g[i])] + [v for v in g[i + 1:] if v > _ulp_after(g[i])]
+        elif m["op"] == "tiny":
+            v = g[i] + m["ulps"] * float(np.spacing(abs(g[i]) if g[i] else 1.0))
+            if i + 1 >= len(g) or v < g[i + 1]:
+                g = g[:i + 1] + [v] + g[i + 1:]
+        elif m["op"] == "at-t0":
+            g = [float(t0)] + g
+        elif m["op"] == "ulp-from-t0":
+            g = [_ulp_after(t0)] + [v for v in g if v > _ulp_after(t0)]
+        elif m["op"] == "one":
+            g = [g[i]]
+    return g
+
+
+def degenerate_steps(t0, grid, lo=-1, hi=32):
+    """steps of the requested grid (t0 -> first time included) that are zero or at most 32 ulps long: scipy's `ode` integrators
+    report failure for (some of) them (every integrator up to 2 ulps, dopri5 / dop853 up to 16) and pygom raises IntegrationError.
+    With (lo, hi) = (32, 2048): the steps in the range where scipy's integrators neither refuse nor are accurate."""
+    out, prev = [], float(t0)
+    for j, t in enumerate(grid):
+        u = float(np.spacing(max(abs(t), abs(prev))))
+        if lo * u < abs(t - prev) <= hi * u or (lo < 0 and t == prev):
+            out.append(j)
+        prev = t
+    return out
+
+
+def _proc(rate, kind, trs):
+    return {"rate": rate, "kind": kind, "transitions": trs}
+
+
+def gen_affine_spec(rng, family):
+    """models whose right-hand side is at most first order in the states (so that `linear_ode()` is True): pure linear chains,
+    constant inflow / birth, constant explicit ODE terms, time-dependent coefficients multiplying states, mixtures, a symmetric
+    Jacobian, an all-zero Jacobian - built as an abstract process set and routed through the API like every generated model"""
+    nS = rng.randint(2 if family == "symmetric" else 1, 4)
+    states = rng.sample(gen.STATE_POOL, nS)
+    params = rng.sample(gen.PARAM_POOL, rng.randint(1, 4))
+    a = lambda: V(rng.choice(params))
+    mag = lambda: N_(rng.randint(1, 2))
+    wave = lambda: E.add(N_(1), E.mul(E.num(1, 2), E.fn(rng.choice(["cos", "sin"]), E.mul(rng.choice([N_(1), N_(3), E.mul(N_(2), E.PI)]), V("t")))))
+    procs, odes = [], []
+
+    def linear(timedep=False):
+        if nS >= 2 and rng.random() < 0.6:
+            o, d = rng.sample(states, 2)
+            trs = [{"type": "T", "origin": o, "dest": d, "mag": mag()}]
+        else:
+            o = rng.choice(states)
+            trs = [{"type": "D", "origin": o, "dest": None, "mag": mag()}]
+        rate = E.mul(E.mul(a(), wave()), V(o)) if timedep else E.mul(a(), V(o))
+        procs.append(_proc(rate, "periodic" if timedep else "linear", trs))
+
+    def inflow(timedep=False):
+        rate = E.mul(a(), wave()) if timedep else a()
+        procs.append(_proc(rate, "const", [{"type": "B", "origin": None, "dest": rng.choice(states), "mag": mag()}]))
+
+    def const_ode():
+        c = rng.choice([a(), E.num(rng.randint(1, 3), 2), E.mul(a(), E.num(1, 2))])
+        odes.append({"state": rng.choice(states), "expr": E.neg(c) if rng.random() < 0.3 else c})
+
+    if family == "symmetric":
+        o, d = rng.sample(states, 2)
+        c = a()
+        if rng.random() < 0.5:      # exchange at equal rates: J = [[-c, c], [c, -c]]
+            procs.append(_proc(E.mul(c, V(o)), "linear", [{"type": "T", "origin": o, "dest": d, "mag": N_(1)}]))
+            procs.append(_proc(E.mul(c, V(d)), "linear", [{"type": "T", "origin": d, "dest": o, "mag": N_(1)}]))
+        else:                       # x' = c y, y' = c x
+            odes.append({"state": o, "expr": E.mul(c, V(d))})
+            odes.append({"state": d, "expr": E.mul(c, V(o))})
+        if rng.random() < 0.5:
+            rng.choice([inflow, const_ode])()
+    elif family == "zero-jacobian":
+        for _ in range(rng.randint(1, 3)):
+            rng.choice([inflow, const_ode, lambda: inflow(True)])()
+    else:
+        for _ in range(rng.randint(1, 3)):
+            linear(family == "timecoef" and rng.random() < 0.7)
+        if family == "timecoef" and not any(p["kind"] == "periodic" for p in procs):
+            linear(True)
+        if family in ("inflow", "mixed"):
+            inflow(family == "mixed" and rng.random() < 0.3)
+        if family in ("const-ode", "mixed"):
+            const_ode()
+        if family == "mixed":
+            linear(rng.random() < 0.5)
+    abstract = {"decl_states": states, "states": states, "params": params, "derived": [], "procs": procs, "odes": odes, "lims": None}
+    how = rng.choice(["any", "any", "ode-only", "events-only"])
+    if how == "ode-only":           # a model with explicit ODE terms only
+        spec, meta = gen.make_spec(rng, abstract, as_ode_prob=1.0)
+    elif how == "events-only" and not odes:
+        spec, meta = gen.make_spec(rng, abstract, routes=("event", "event_eq", "event_bare", "incremental"))
+    else:
+        how = "any"
+        spec, meta = gen.make_spec(rng, abstract)
+    meta["how"] = how
+    return spec, meta
+
+
+def gen_runtime_model(rng, idx, radau, family=None):
+    family = family or gen.wchoice(rng, MODEL_FAMILIES)
+    if family in AFFINE:
+        spec, meta = gen_affine_spec(rng, family)
+    elif family == "tiny-model":        # one state, one parameter
+        spec, meta = gen.gen_model(rng, max_states=1, max_params=1, min_events=1, max_events=2, allow_time=rng.random() < 0.3,
+                                   allow_range=False, limits=False, allow_derived=False)
+    else:
+        spec, meta = gen.gen_model(rng, max_states=4, max_params=4, min_events=1, max_events=4, allow_time=family == "general-time",
+                                   allow_range=rng.random() < 0.3, limits=False)
     params = {p: fr(Fraction(rng.randint(2, 16), 16)) for p in meta["params"]}
     x0 = [fr(Fraction(rng.randint(2, 16), 8)) for _ in meta["states"]]
-    t0 = fr(rng.choice([0, 0, Fraction(1, 2), -1, 3]))
+    # boundary values: parameters that are exactly zero, initial states that are exactly zero (some or all)
+    if rng.random() < 0.12:
+        for p in rng.sample(sorted(params), rng.randint(1, len(params))):
+            params[p] = "0"
+    if rng.random() < 0.12:
+        for i in (range(len(x0)) if rng.random() < 0.4 else rng.sample(range(len(x0)), rng.randint(1, len(x0)))):
+            x0[i] = "0"
     k = rng.randint(2, 8)
     if rng.random() < 0.5:
         fracs = [Fraction(i + 1, k) for i in range(k)]
@@ -228,8 +424,9 @@ def gen_runtime_model(rng, idx, radau):
         cuts = sorted(set(rng.randint(1, 64) for _ in range(k)))
         fracs = [Fraction(v, 64) for v in cuts]
         gk = "nonuniform"
-    return {"kind": "model", "spec": spec, "kinds": sorted(set(meta["kinds"])), "nS": len(meta["states"]),
-            "params": params, "x0": x0, "t0": t0, "Tmax": rng.choice([1, 2, 3]), "fracs": [fr(f) for f in fracs],
+    t0, hs, mods = gen_scenario(rng, long_ok=family in ("chain", "inflow", "const-ode"))
+    return {"kind": "model", "family": family, "spec": spec, "kinds": sorted(set(meta["kinds"])), "nS": len(meta["states"]),
+            "params": params, "x0": x0, "t0": t0, "Tmax": rng.choice([1, 2, 3]), "fracs": [fr(f) for f in fracs], "hscale": hs, "gridmods": mods,
             "grid_kind": gk, "container": rng.choice(["list", "ndarray"]), "radau": bool(radau)}
 
 
@@ -289,6 +486,12 @@ def catalogue():
     cat.append(dict(name="Lorenz", spec=_ode_spec(["x", "y", "z"], ["beta", "sigma", "rho"],
                                                    [_m(sigma, E.sub(y, x)), E.sub(_m(x, E.sub(rho, z)), y), E.sub(_m(x, y), _m(beta, z))]),
                     params={"beta": "8/3", "sigma": "10", "rho": "28"}, x0=["1", "1", "1"], T=1))
+    # time-dependent member: beta(t) = beta0 (1 - delta cos(2 * 3.14159 t / period)) as written in the source (3.14159, not pi)
+    bT = _m(V("beta0"), E.sub(N_(1), _m(V("delta"), E.fn("cos", E.div(_m(N_(2), E.num(314159, 100000), V("t")), V("period"))))))
+    infT = E.div(_m(bT, S, I), Nn)
+    cat.append(dict(name="SIS_Periodic", spec=_ode_spec(["S", "I"], ["gamma", "beta0", "delta", "period", "N"],
+                                                         [E.add(E.neg(infT), _m(gamma, I)), E.sub(infT, _m(gamma, I))]),
+                    params={"gamma": "1/4", "beta0": "1", "delta": "1/2", "period": "2", "N": "1"}, x0=["9/10", "1/10"], T=10, time=True))
     # stiff member of the catalogue (hard-coded constants, no parameters): the Jacobian orientation handed to
     # LSODA only matters in its stiff mode, so this is where a transposed / mis-ordered Jacobian shows
     y1, y2, y3 = V("y1"), V("y2"), V("y3")
@@ -305,19 +508,20 @@ def gen_catalogue(rng, i, radau):
     cat = catalogue()
     ent = cat[i % len(cat)]
     k = rng.randint(3, 10)
-    T = Fraction(ent["T"])
     if rng.random() < 0.5:
-        grid = [T * Fraction(j + 1, k) for j in range(k)]
+        fracs = [Fraction(j + 1, k) for j in range(k)]
         gk = "uniform"
     else:
         cuts = sorted(set(rng.randint(1, 64) for _ in range(k)))
-        grid = [T * Fraction(v, 64) for v in cuts]
+        fracs = [Fraction(v, 64) for v in cuts]
         gk = "nonuniform"
-    t0 = Fraction(rng.choice([0, 0, 1, -2]))
+    t0, hs, mods = gen_scenario(rng, long_ok=ent["name"] in ("SIS", "SIR", "SEIR", "SIR_norm"))
     if ent.get("stiff"):
-        t0 = Fraction(0)
-    return {"kind": "catalogue", "name": ent["name"], "params": ent["params"], "x0": ent["x0"], "t0": fr(t0), "stiff": bool(ent.get("stiff")),
-            "grid": [fr(t0 + g) for g in grid], "grid_kind": gk, "container": rng.choice(["list", "ndarray"]), "radau": bool(radau)}
+        t0, hs = "0", "1"
+        mods = [m for m in mods if m["op"] in ("repeat", "one")]
+    return {"kind": "catalogue", "name": ent["name"], "params": ent["params"], "x0": ent["x0"], "t0": t0, "stiff": bool(ent.get("stiff")),
+            "fracs": [fr(f) for f in fracs], "hscale": hs, "gridmods": mods, "grid_kind": gk, "container": rng.choice(["list", "ndarray"]),
+            "radau": bool(radau)}
 
 
 def make_cases(rng, tier, budget):
@@ -330,8 +534,10 @@ def make_cases(rng, tier, budget):
     off = rng.randrange(ncat)
     for i in range(budget["catalogue"]):
         cases.append(gen_catalogue(random.Random(rng.getrandbits(64)), off + i, i % budget["radau_every"] == 0))
+    deck = [f for f, w in MODEL_FAMILIES for _ in range(w)]     # every family gets its share on every run
+    rng.shuffle(deck)
     for i in range(budget["models"]):
-        cases.append(gen_runtime_model(random.Random(rng.getrandbits(64)), i, i % budget["radau_every"] == 0))
+        cases.append(gen_runtime_model(random.Random(rng.getrandbits(64)), i, i % budget["radau_every"] == 0, family=deck[i % len(deck)]))
         if i < budget.get("cython", 0):
             cases[-1]["backend"] = "cython"      # pygom's default compile back-end (seconds of gcc per evaluator)
     cases += session_cases(rng, budget)
@@ -421,7 +627,7 @@ def make_fake_odeint(c, log):
         t = np.asarray(t, dtype=float)
         log.append({"odeint_times": [float(v) for v in t]})
         rows = np.array([y0 + cvec[:len(y0)] * (ti - t[0]) for ti in t])
-        return (rows, {"message": "fake"}) if full_output else rows
+        return (rows, {"message": "Integration successful."}) if full_output else rows      # what scipy says on success
     return odeint
 
 
@@ -575,6 +781,8 @@ def run_fake(case):
 def gen_fake_session(rng):
     n = rng.randint(1, 3)
     t0 = dyadic(rng, -2, 2, 4)
+    far = rng.choice([738000, -738000, 10000, -(2 ** 24)]) if rng.random() < 0.2 else 0     # the whole session far from the origin
+    t0 += far
     pool = []
     for _ in range(rng.randint(1, 3)):
         k = rng.randint(1, 5)
@@ -597,11 +805,11 @@ def gen_fake_session(rng):
     for _ in range(rng.randint(4, 14)):
         k = gen.wchoice(rng, [("setT0", 3), ("setX0", 3), ("setBoth", 2), ("integrate", 4), ("solve_determ", 2), ("integrate2", 4)])
         if k == "setT0":
-            ops.append({"k": k, "t": fr(rng.choice([t0, dyadic(rng, -2, 2, 4)]))})
+            ops.append({"k": k, "t": fr(rng.choice([t0, far + dyadic(rng, -2, 2, 4)]))})
         elif k == "setX0":
             ops.append({"k": k, "x": [fr(dyadic(rng, -4, 4)) for _ in range(n)]})
         elif k == "setBoth":
-            ops.append({"k": k, "x": [fr(dyadic(rng, -4, 4)) for _ in range(n)], "t": fr(rng.choice([t0, dyadic(rng, -2, 2, 4)]))})
+            ops.append({"k": k, "x": [fr(dyadic(rng, -4, 4)) for _ in range(n)], "t": fr(rng.choice([t0, far + dyadic(rng, -2, 2, 4)]))})
         elif k == "solve_determ" and rng.random() < 0.05:
             ops.append({"k": k, "t": {"none": True}, "container": "None"})
         else:
@@ -738,8 +946,8 @@ def fd_jac(f, t, x):
     return J
 
 
-def reference(f, x0, t0, grid, radau):
-    """returns (ref rows at grid, info) or (None, reason)"""
+def reference(f, x0, t0, grid, radau, direct_grid=None):
+    """returns (ref rows at grid, info) or (None, reason); grid strictly ascending, after t0"""
     from scipy.integrate import solve_ivp
     import warnings
     with warnings.catch_warnings():
@@ -765,7 +973,12 @@ def reference(f, x0, t0, grid, radau):
             return None, "conditioning-undefined:%s" % type(exc).__name__
         amp = math.exp(min(700.0, float(np.trapezoid(mus, tt))))
         info = {"amp": amp, "stiff": float(np.trapezoid(nrm, tt))}
-        info["direct"] = direct_solver_error(f, x0, t0, grid, ref)
+        if direct_grid is None:
+            info["direct"] = direct_solver_error(f, x0, t0, grid, ref)
+        elif direct_grid:
+            info["direct"] = direct_solver_error(f, x0, t0, direct_grid, np.array([ref[grid.index(t)] for t in direct_grid]))
+        else:
+            info["direct"] = {"default": 0.0, "1e-10": 0.0}
         if radau:
             try:
                 s2 = solve_ivp(f, (t0, grid[-1]), x0, method="Radau", rtol=1e-10, atol=1e-12, t_eval=grid)
@@ -778,6 +991,32 @@ def reference(f, x0, t0, grid, radau):
             if d > 1e-8:
                 return None, "references-disagree"
     return ref, info
+
+
+def reference_any(f, x0, t0, grid, radau, stiff=False):
+    """reference rows for ANY ascending grid: repeated times get the same row, a time equal to t0 gets x0; the integration itself
+    runs on the distinct times after t0.  scipy's own odeint (`direct`) is asked for the distinct times that are more than 4 ulps
+    after t0: lsoda refuses a first output closer than that ("tout too close to t to start integration") and odeint then returns
+    uninitialised rows - `first_step_degenerate` says so and the odeint-based entry points are not judged on such a grid"""
+    t0 = float(t0)
+    x0 = np.asarray(x0, dtype=float)
+    uniq = sorted(set(float(t) for t in grid if float(t) != t0))
+    close = [t for t in uniq if abs(t - t0) <= 4 * float(np.spacing(max(abs(t), abs(t0))))]
+    if not uniq:
+        return np.array([x0 for _ in grid]), {"amp": 1.0, "stiff": 0.0, "direct": {"default": 0.0, "1e-10": 0.0}, "first_step_degenerate": False}
+    if uniq[0] < t0:
+        raise ValueError("generator: a requested time precedes the initial time")
+    far = [t for t in uniq if t not in close]
+    if stiff:
+        ref, info = reference_stiff(f, x0, t0, uniq)
+    else:
+        ref, info = reference(f, x0, t0, uniq, radau, direct_grid=far if close else None)
+    if ref is None:
+        return None, info
+    rows = dict(zip(uniq, ref))
+    rows[t0] = x0
+    info["first_step_degenerate"] = bool(close)
+    return np.array([rows[float(t)] for t in grid]), info
 
 
 def reference_stiff(f, x0, t0, grid):
@@ -806,11 +1045,65 @@ def direct_solver_error(f, x0, t0, grid, ref):
     out = {}
     for key, kw in (("default", {}), ("1e-10", {"rtol": 1e-10, "atol": 1e-10})):
         try:
-            y = odeint(lambda x, t: f(t, x), x0, np.append(t0, grid), mxstep=10000, **kw)
-            out[key] = float(np.max(np.abs(y[1:] - ref) / (1.0 + np.abs(ref))))
+            y, o = odeint(lambda x, t: f(t, x), x0, np.append(t0, grid), mxstep=10000, full_output=True, **kw)
+            # odeint does not raise when lsoda refuses or gives up: it returns uninitialised rows (often zeros, often not) and says
+            # so in its message only
+            out[key] = float(np.max(np.abs(y[1:] - ref) / (1.0 + np.abs(ref)))) if o["message"] == "Integration successful." else float("inf")
         except Exception:
             out[key] = float("inf")
     return out
+
+
+def scipy_ode_unreliable(f, x0, t0, grid, method, ref=None, full_output=False):
+    """does scipy's own `ode` integrator (pygom's tolerances, the Lean right-hand side with a finite-difference Jacobian - no pygom
+    involved) fail or lose accuracy on this instance?  Asked only when pygom raised IntegrationError or returned rows off the
+    reference.  The integrator documented for `method` steps through the grid once as ONE object and once freshly created at every
+    step; with `full_output` (where pygom re-chooses the integrator from the eigenvalues after every step) the fresh-per-step run
+    is also made with lsoda, dopri5 and vode.  Returns a reason or None.  Observed on scipy 1.18, far from the time origin:
+    a derivative that is exactly zero at x0 makes lsoda report 'illegal input' for some increments; vode-bdf reports success and is
+    off by 3e-4 on one particular step of 2e-4 at t0 = -738000 (0 of 400 random neighbouring steps).  Where scipy itself gives
+    up or is wrong the assumption 'the solver approximates the flow' fails on the instance and there is nothing to judge."""
+    import warnings
+    import scipy.integrate as si
+    doc = DOC_INTEGRATOR.get(method, "lsoda")
+
+    def make(name, x, t):
+        kw = {"method": "bdf"} if name == "vode:bdf" else {}
+        args = (lambda t_, x_: f(t_, x_),) if name.startswith("dop") else (lambda t_, x_: f(t_, x_), lambda t_, x_: fd_jac(f, t_, x_))
+        r = si.ode(*args).set_integrator(name.split(":")[0], nsteps=10000, atol=1e-10, rtol=1e-10, **kw)
+        r.set_initial_value(np.array(x, dtype=float), float(t))
+        return r
+
+    def off(rows):
+        if ref is None:
+            return False
+        a = np.array(rows, dtype=float)
+        return not np.all(np.isfinite(a)) or bool(np.max(np.abs(a - ref) / (1.0 + np.abs(ref))) > TOL / 10)
+    try:
+        with warnings.catch_warnings():
+            warnings.simplefilter("ignore")
+            r, rows = make(doc, x0, t0), []
+            for t in grid:
+                r.integrate(float(t))
+                if not r.successful():
+                    return "%s-refuses" % doc
+                rows.append(r.y.copy())
+            if off(rows):
+                return "%s-inaccurate" % doc
+            for name in ([doc] + (["lsoda", "dopri5", "vode"] if full_output else [])):
+                x, tc, rows = np.array(x0, dtype=float), float(t0), []
+                for t in grid:
+                    r = make(name, x, tc)
+                    r.integrate(float(t))
+                    if not r.successful():
+                        return "fresh-%s-refuses" % name
+                    x, tc = r.y.copy(), float(t)
+                    rows.append(x)
+                if off(rows):
+                    return "fresh-%s-inaccurate" % name
+    except Exception as exc:
+        return "raised-%s" % type(exc).__name__
+    return None
 
 
 class _Rec(object):
@@ -835,6 +1128,11 @@ class _Rec(object):
         scipy.integrate.ode = self.real
 
 
+def sig_method(sig):
+    m = sig.split("method=")[1].split(":")[0]
+    return None if m == "None" else m
+
+
 def bucket(r):
     """decade of the worst scaled error |row - ref| / (1 + |ref|)"""
     if r <= 1e-14:
@@ -844,6 +1142,8 @@ def bucket(r):
 
 def judge(sig, sol, ref, x0, grid, origin, viol, margins, key, acc=TOL):
     """the property on one returned array: row count, origin row, order/accuracy (|row - ref| <= acc (1+|ref|))"""
+    if not np.isfinite(acc):
+        return          # scipy's own odeint reports failure on this instance: the odeint-based entry points are not judged
     n_exp = len(grid) + (1 if origin else 0)
     a = np.asarray(sol, dtype=float)
     if a.ndim != 2 or a.shape[0] != n_exp or a.shape[1] != len(x0):
@@ -864,7 +1164,7 @@ def judge(sig, sol, ref, x0, grid, origin, viol, margins, key, acc=TOL):
         what = "accuracy"
         if len(grid) >= 2 and np.all(np.abs(a - ref[-1]) <= acc * (1.0 + np.abs(ref[-1]))) and np.max(np.abs(ref[0] - ref[-1])) > 1e-4:
             what = "rows-equal-final-state"
-        elif len(grid) >= 2 and any(np.all(np.abs(a[i] - ref[j]) <= acc * (1.0 + np.abs(ref[j]))) for j in range(len(grid)) if j != i):
+        elif len(grid) >= 2 and any(np.all(np.abs(a[i] - ref[j]) <= acc * (1.0 + np.abs(ref[j]))) for j in range(len(grid)) if grid[j] != grid[i]):
             what = "row-order"
         viol.append({"what": "%s: row for t=%r is %s, the ODE solution there is %s (%s)" % (sig, grid[i], [float(v) for v in a[i]], [float(v) for v in ref[i]], what),
                      "signature": sig + ":" + what,
@@ -902,8 +1202,11 @@ def run_runtime(case):
     f, src = rhs_from_lean(lr, case["params"])
     x0 = np.array([float(Fraction(v)) for v in case["x0"]])
     t0 = float(Fraction(case["t0"]))
-    if case["kind"] == "catalogue":
-        grid = [float(Fraction(v)) for v in case["grid"]]
+    hs = float(Fraction(case.get("hscale", "1")))
+    if case["kind"] == "catalogue" and "grid" in case:
+        grid = [float(Fraction(v)) for v in case["grid"]]          # explicit grid (older corpus cases)
+    elif case["kind"] == "catalogue":
+        grid = [t0 + hs * float(ent["T"]) * float(Fraction(v)) for v in case["fracs"]]
     else:
         try:
             L = float(np.linalg.norm(fd_jac(f, t0, x0), 2))
@@ -913,11 +1216,45 @@ def run_runtime(case):
             return {"nontrivial": False, "mismatches": mism, "violations": viol, "tags": tags + ["rejected:rhs-undefined-at-x0"]}
         T = min(float(case["Tmax"]), 2.0 / L) if L > 0 else float(case["Tmax"])
         T = float(Fraction(T).limit_denominator(1024)) or 1.0 / 1024
-        grid = [t0 + T * float(Fraction(v)) for v in case["fracs"]]
+        grid = [t0 + hs * T * float(Fraction(v)) for v in case["fracs"]]
+    grid = apply_gridmods(t0, grid, case.get("gridmods", []))
+    if any(b < a for a, b in zip([t0] + grid, grid)):
+        raise ValueError("generator: the grid is not ascending")
+    span = grid[-1] - t0
+    if 0 < span < 1e6 * float(np.spacing(max(abs(t0), abs(grid[-1])))) and not all(t == grid[0] for t in grid):
+        # the whole horizon is shorter than a million ulps of t: the internal steps of every integrator are quantised and scipy
+        # itself is no longer accurate to 1e-8 there (measured: errors up to 1e-4 from vode at |t| = 1e8, horizon 2e-3)
+        return {"nontrivial": False, "mismatches": mism, "violations": viol, "tags": tags + ["rejected:horizon-below-1e6-ulps-of-t"]}
+    if degenerate_steps(t0, grid, 32, 2048):
+        # measured on scipy 1.18 without pygom: a freshly started vode asked for a step of 64..256 ulps at |t| = 1e6 reports success
+        # and is off by 6e-6; below 32 ulps the integrators refuse or are exact, above 2048 they are accurate
+        return {"nontrivial": False, "mismatches": mism, "violations": viol, "tags": tags + ["rejected:step-between-32-and-2048-ulps-of-t"]}
+    if degenerate_steps(t0, grid):
+        tags.append("grid-has-zero-or-few-ulp-step")
     tags.append("grid=%s" % case["grid_kind"])
+    tags.append("family=%s" % case.get("family", case["kind"]))
+    tags.append("t0=%s" % ("far:%s" % ("+" if t0 > 0 else "-") if abs(t0) >= 1e4 else "near"))
+    tags.append("horizon=%s" % ("tiny" if hs < 1 else "long" if hs > 1 else "normal"))
+    for m_ in case.get("gridmods", []):
+        tags.append("gridmod=%s" % m_["op"])
+    if len(grid) >= 2 and abs(t0) >= 1e4:
+        gaps = [b - a for a, b in zip([t0] + grid, grid) if b > a]
+        if gaps and min(gaps) <= 1e-5 * abs(t0):
+            tags.append("spacing-below-1e-5-of-|t|")
+    for p_, v_ in case["params"].items():
+        if Fraction(v_) == 0:
+            tags.append("boundary:zero-parameter")
+            break
+    if any(Fraction(v) == 0 for v in case["x0"]):
+        tags.append("boundary:zero-initial-state" + ("-all" if all(Fraction(v) == 0 for v in case["x0"]) else ""))
     tags.append("backend:%s" % case.get("backend", "lambda"))
     stiff = bool(case.get("stiff"))
-    ref, info = reference_stiff(f, x0, t0, grid) if stiff else reference(f, x0, t0, grid, case.get("radau"))
+    try:
+        if model.linear_ode():
+            tags.append("linear_ode()=True")
+    except Exception:
+        pass
+    ref, info = reference_any(f, x0, t0, grid, case.get("radau"), stiff=stiff)
     if ref is None:
         return {"nontrivial": False, "mismatches": mism, "violations": viol, "tags": tags + ["rejected:%s" % info]}
     if case["kind"] == "model" and info["amp"] > AMP_MAX:
@@ -927,7 +1264,8 @@ def run_runtime(case):
     # pygom's `integrate` runs odeint at scipy's default tolerance (1.49e-8): on instances where scipy's own odeint,
     # on the Lean right-hand side, is itself further than TOL/20 from the reference the acceptance is 20 x that error
     acc_odeint = max(TOL, 20.0 * info["direct"]["default"])
-    tags.append("odeint-acceptance=%s" % ("1e-6" if acc_odeint == TOL else "20x-direct-odeint-error"))
+    tags.append("odeint-acceptance=%s" % ("1e-6" if acc_odeint == TOL else "20x-direct-odeint-error" if np.isfinite(acc_odeint) else
+                                          "none:scipy-odeint-reports-failure-on-this-instance"))
     if case.get("radau"):
         tags.append("radau-cross-checked")
     moved = float(np.max(np.abs(ref - x0) / (1.0 + np.abs(x0))))
@@ -945,12 +1283,34 @@ def run_runtime(case):
             finally:
                 rec.remove()
         except Exception as exc:
+            if "method=odeint" in sig and type(exc).__name__ in ZERO_STEP_ERRORS and (
+                    not np.isfinite(acc_odeint) or info.get("first_step_degenerate") or
+                    (g is not grid and 0 < abs(g[0] - t0) <= 4 * float(np.spacing(max(abs(g[0]), abs(t0)))))):
+                # scipy's own odeint reports failure on this instance: an entry point that says so instead of handing out the rows
+                # (proposed_fixes/C02-odeint-failure-ignored.diff) is not judged either
+                tags.append("odeint-failure-reported:%s:not-judged" % sig.split(":")[0])
+                return
+            if degenerate_steps(t0, g) and type(exc).__name__ in ZERO_STEP_ERRORS and "method=odeint" not in sig:
+                # unchanged pygom / scipy: an `ode` integrator asked for a step of (nearly) zero length reports failure
+                tags.append("zero-length-step:%s:%s:not-judged" % (sig.split(":full_output")[0], type(exc).__name__))
+                return
+            if type(exc).__name__ in ZERO_STEP_ERRORS and "method=odeint" not in sig and scipy_ode_unreliable(f, x0, t0, g, sig_method(sig)):
+                tags.append("scipy-ode-refuses-this-instance:%s:not-judged" % sig.split(":full_output")[0])
+                return
             viol.append({"what": "%s raised %s: %s" % (sig, type(exc).__name__, str(exc)[:200]),
                          "signature": sig + ":raised:" + type(exc).__name__, "detail": ""})
             return
         sol = res[0] if has_output else res
-        r = ref if len(g) == len(grid) else ref[-1:]
+        r = ref if g is grid else ref[-1:]
+        nv = len(viol)
         judge(sig, sol, r, x0, g, origin, viol, margins, sig.split(":")[0], acc_odeint if "method=odeint" in sig else TOL)
+        if len(viol) > nv and "method=odeint" not in sig and viol[-1]["signature"].split(":")[-1] in ("accuracy", "row-order", "rows-equal-final-state"):
+            # before a wrong row is reported: is scipy's own integrator (no pygom) right on this very instance?
+            why = scipy_ode_unreliable(f, x0, t0, g, sig_method(sig), ref=r, full_output="full_output=True" in sig or sig.startswith("integrate2"))
+            if why:
+                del viol[nv:]
+                margins.pop(sig.split(":")[0], None)
+                tags.append("scipy-ode-unreliable-on-this-instance:%s:%s:not-judged" % (sig.split(":full_output")[0], why))
         if want_first is not None and (not rec.calls or rec.calls[0] != want_first):
             viol.append({"what": "%s set up scipy integrator %s, the documented integrator for this method is %s" % (
                 sig, rec.calls[:1], want_first), "signature": sig + ":wrong-integrator", "detail": str(rec.calls[:5])})
@@ -959,7 +1319,9 @@ def run_runtime(case):
         model.initial_values = (x0.copy(), t0)
 
     # model.integrate / solve_determ (odeint)
-    for fo in (False, True):
+    if info.get("first_step_degenerate"):
+        tags.append("odeint-entries-not-judged:first-output-within-4-ulps-of-t0")
+    for fo in (() if info.get("first_step_degenerate") else (False, True)):
         fresh()
         call("integrate:method=odeint:full_output=%s" % fo, lambda: model.integrate(tg, full_output=fo), True, grid, has_output=fo)
         fresh()
@@ -974,14 +1336,25 @@ def run_runtime(case):
                      lambda: ode_utils.integrateFuncJac(model.ode_T, model.jacobian_T, x0.copy(), t0, tg, includeOrigin=io,
                                                         full_output=fo, method=m), io, grid,
                      want_first=DOC_INTEGRATOR.get(m), has_output=fo)
-    # scalar time
+    # scalar time: ONE step from t0 to the last time.  Assumption A is validated for that call on its own (a single long step can
+    # alias a periodic rate that the grid resolves: scipy's odeint then returns x0 with "Integration successful.")
     tl = grid[-1]
-    fresh()
-    call("integrate:method=odeint:full_output=False", lambda: model.integrate(tl), True, [tl])
-    fresh()
-    call("integrate2:method=None:full_output=False", lambda: model.integrate2(tl), True, [tl])
-    call("integrateFuncJac:method=None:full_output=False",
-         lambda: ode_utils.integrateFuncJac(model.ode_T, model.jacobian_T, x0.copy(), t0, tl), False, [tl])
+    far_enough = abs(tl - t0) > 4 * float(np.spacing(max(abs(tl), abs(t0))))
+    dsc = direct_solver_error(f, x0, t0, [tl], ref[-1:]) if far_enough and not stiff else {"default": 0.0, "1e-10": 0.0}
+    acc_grid = acc_odeint
+    acc_odeint = max(acc_odeint, 20.0 * dsc["default"])
+    if acc_odeint != acc_grid:
+        tags.append("scalar-time:odeint-acceptance=20x-direct-odeint-error")
+    if tl == t0 or far_enough:
+        fresh()
+        call("integrate:method=odeint:full_output=False", lambda: model.integrate(tl), True, [tl])
+    if dsc["1e-10"] > TOL / 100:
+        tags.append("scalar-time:solver-inaccurate-at-1e-10:not-judged")
+    else:
+        fresh()
+        call("integrate2:method=None:full_output=False", lambda: model.integrate2(tl), True, [tl])
+        call("integrateFuncJac:method=None:full_output=False",
+             lambda: ode_utils.integrateFuncJac(model.ode_T, model.jacobian_T, x0.copy(), t0, tl), False, [tl])
     for k, v in margins.items():
         tags.append("margin:%s:%s" % (k, bucket(v * TOL)))
     tags.append("amp<=%s" % ("2" if info["amp"] <= 2 else "5" if info["amp"] <= 5 else "20" if info["amp"] <= 20 else "inf"))
@@ -1015,7 +1388,8 @@ def run_runtime(case):
 #              numpy scalars/mixed/scalar, x0 list/tuple/float or int ndarray/int list, t0 float/int/np.float64/
 #              np.int64, parameters dict/partial dict/tuples/ordered list/ordered ndarray), a grid starting at t0.
 # Returned arrays are KEPT and compared, after all later solves, with a copy taken when they were returned;
-# every object handed to pygom is compared with a copy taken before.  Repeated solves with equal values must
+# every object handed to pygom is compared with a copy taken before (a write into it is a side effect - tagged and reported as a
+# mismatch with the pure model; the violation, if any, is the wrong rows some judged call then returns).  Repeated solves with equal values must
 # agree bit for bit (a disagreement is a mismatch with the pure model; off the reference it is a violation).
 # ------------------------------------------------------------------------------------------------
 ENTRY_CONFIGS = ([("integrate", None, fo, True) for fo in (False, True)] +
@@ -1032,6 +1406,9 @@ PFORMS = ["dict", "partial", "tuples", "ordered-list", "ordered-ndarray"]
 # unchanged pygom/scipy: an `ode` integrator asked to advance by zero (first requested time == t0) reports
 # failure for lsoda (single-integrator path) / dopri5 / dop853 and pygom raises IntegrationError: tagged, not judged
 ZERO_STEP_ERRORS = ("IntegrationError",)
+# assignments the unchanged pygom refuses (the refusal is tagged; what is judged is the next solve, after proper values were given)
+BAD_ASSIGN = ["x0-short", "x0-long", "x0-string", "t0-string", "t0-list", "params-unknown-name", "params-unknown-only", "params-short-array",
+              "params-long-array"]
 
 
 def entry_sig(e):
@@ -1086,8 +1463,12 @@ def _session_model(rng, cat_prob, min_params=1, int_values=False, names_only=Non
                 "configs": {"A": {"params": dict(ent["params"]), "x0": dict(zip(states, ent["x0"])), "t0": "0"}}}
         return inst
     while True:
-        spec, meta = gen.gen_model(rng, max_states=4, max_params=4, min_events=1, max_events=4, allow_time=False,
-                                   allow_range=rng.random() < 0.3, limits=False)
+        if rng.random() < 0.25:
+            # at most first order in the states (linear_ode() is True): chains, constant inflow / ODE terms, time-dependent coefficients
+            spec, meta = gen_affine_spec(rng, rng.choice(AFFINE))
+        else:
+            spec, meta = gen.gen_model(rng, max_states=4, max_params=4, min_events=1, max_events=4, allow_time=rng.random() < 0.2,
+                                       allow_range=rng.random() < 0.3, limits=False)
         if len(meta["params"]) >= min_params:
             break
     if int_values:
@@ -1098,6 +1479,13 @@ def _session_model(rng, cat_prob, min_params=1, int_values=False, names_only=Non
         x0 = _gen_values(rng, meta["states"], 2, 16, 8)
     return {"source": "spec", "spec": spec, "decl_states": list(meta["abstract"]["decl_states"]), "decl_params": list(meta["params"]),
             "kinds": sorted(set(meta["kinds"])), "amp_check": True, "configs": {"A": {"params": params, "x0": x0, "t0": "0"}}}
+
+
+def _tbase(rng, integer=False):
+    """where the session sits on the time axis: near the origin or far from it (both signs)"""
+    if rng.random() < 0.3:
+        return rng.choice([738000, -738000, 10000, -10000, 10 ** 6, -(10 ** 6)] + ([] if integer else [Fraction(-246913, 2)]))
+    return rng.choice([0, 0, 1, -1, 3] if integer else [0, 0, Fraction(1, 2), -1, 3])
 
 
 def _base_grid(rng):
@@ -1142,6 +1530,11 @@ def gen_session_history(rng, entries, radau):
         keep = keep[1:] if len(keep) > 1 and rng.random() < 0.5 else keep[:-1] or keep
     grids["G3"] = keep                                                           # subset
     grids["Gs"] = [g0[-1]]                                                       # the last time, passed as a scalar
+    g5 = list(g0)
+    for _ in range(rng.randint(1, 2)):                                           # replicate times (a time asked twice or three times)
+        j = rng.randrange(len(g5))
+        g5 = g5[:j + 1] + [g5[j]] * rng.choice([1, 1, 2]) + g5[j + 1:]
+    grids["G5"] = g5
     minfrac = min(min(v) for v in grids.values())
     tB = rng.choice([Fraction(-1, 3), Fraction(-1, 4), Fraction(-1, 8), minfrac / 2])
     if cat:
@@ -1158,7 +1551,7 @@ def gen_session_history(rng, entries, radau):
     ops = []
     for e in entries:
         b = lambda **kw: _solve_op(0, "A", "G0", e, base, **kw)
-        dims = [dict(cfg="Bt0"), dict(cfg="Bx0"), dict(cfg="Bpar"), dict(cfg="Btx"), dict(grid="G1"), dict(grid="G2"),
+        dims = [dict(cfg="Bt0"), dict(cfg="Bx0"), dict(cfg="Bpar"), dict(cfg="Btx"), dict(grid="G1"), dict(grid="G2"), dict(grid="G5"),
                 dict(grid="G3"), dict(grid="Gs", gform=rng.choice(["scalar", "np.float64"])), dict(cfg="Bt0", grid="G1"),
                 dict(gform=_other(rng, GFORMS_FLOAT, base["gform"])), dict(fo=not e[2])]
         if "G4" in grids:
@@ -1176,6 +1569,10 @@ def gen_session_history(rng, entries, radau):
                 d["via"] = rng.choice(["attr", "values"])
                 d["pform"] = rng.choice(PFORMS)
             ops.append(b(**d))
+            if rng.random() < 0.12:
+                # an input the unchanged pygom REJECTS (wrong length, unknown name, not a number) is attempted in between; whatever it
+                # left behind, the instance is then given its proper values again and must solve for them
+                ops.append({"op": "bad-assign", "inst": 0, "what": rng.choice(BAD_ASSIGN)})
             if rng.random() < 0.85:
                 ops.append(b())         # restored
         ops.append(b())
@@ -1185,7 +1582,7 @@ def gen_session_history(rng, entries, radau):
     for e in entries:
         ops.append({"op": "randomise", "inst": 0, "grid": "G0", "solve": rng.random() < 0.5})
         ops.append(_solve_op(0, "A", "G0", e, base, pform=rng.choice([f for f in PFORMS if f != "partial"])))
-    return {"kind": "session", "flavour": "history", "instances": [inst], "tbase": fr(rng.choice([0, 0, Fraction(1, 2), -1, 3])),
+    return {"kind": "session", "flavour": "history", "instances": [inst], "tbase": fr(_tbase(rng)),
             "Tmax": rng.choice([1, 2, 3]), "grids": {k: [fr(f) for f in v] for k, v in grids.items()}, "ops": ops, "radau": bool(radau)}
 
 
@@ -1277,7 +1674,7 @@ def gen_session_siblings(rng, entries, radau):
             ops.append(_solve_op(0, "B", "G0", e, forms[0]))
             ops.append(_solve_op(0, "A", "G0", e, forms[0], pform=rng.choice(PFORMS)))
             ops.append(_solve_op(clone, "A", "G0", e, forms[clone]))
-    return {"kind": "session", "flavour": "siblings", "instances": insts, "tbase": fr(rng.choice([0, 0, Fraction(1, 2), -1, 3])),
+    return {"kind": "session", "flavour": "siblings", "instances": insts, "tbase": fr(_tbase(rng)),
             "Tmax": rng.choice([1, 2, 3]), "grids": {"G0": [fr(f) for f in g0]}, "ops": ops, "radau": bool(radau)}
 
 
@@ -1308,7 +1705,7 @@ def gen_session_forms(rng, entries, radau):
             d["via"] = rng.choice(["attr", "values"])
             ops.append(b(**d))
         ops.append(b())
-    return {"kind": "session", "flavour": "forms", "instances": [inst], "tbase": str(rng.choice([0, 0, 1, -1, 3])), "Tfixed": "1/2" if half else "1",
+    return {"kind": "session", "flavour": "forms", "instances": [inst], "tbase": str(_tbase(rng, integer=True)), "Tfixed": "1/2" if half else "1",
             "grids": grids, "ops": ops, "radau": bool(radau)}
 
 
@@ -1466,7 +1863,7 @@ def run_session(case):
         live[i] = {"model": m, "cur": {"params": None, "x0": None, "t0": None}, "last": None}
         return True
 
-    kept, handed, margins, first_result = [], [], {}, {}
+    kept, handed, margins, first_result, grid_acc = [], [], {}, {}, {}
     prev_inst = [None]
     counts = {"solves": 0, "visible": 0, "tagged": 0}
 
@@ -1505,10 +1902,13 @@ def run_session(case):
         if not found["modified"]:
             for obj, snap, what in handed:
                 if not _same_as_snapshot(obj, snap):
+                    # a pure side effect: the property speaks about returned rows only (they are judged on every call), so a write
+                    # into the caller's object is tagged and reported as a mismatch with the pure Lean model, not as a violation
                     found["modified"] = True
-                    viol.append({"what": "the %s object handed to pygom was modified (seen after %s)" % (what, after),
-                                 "signature": "session:input-modified:%s" % what,
-                                 "detail": "before=%s now=%r" % (snap[2] if snap[0] != "nd" else snap[2].tolist(), obj)})
+                    tags.append("side-effect:input-modified:%s" % what)
+                    mism.append({"what": "side-effect:input-modified:%s" % what,
+                                 "detail": "the %s object handed to pygom was modified (seen after %s): before=%s now=%r" % (
+                                     what, after, snap[2] if snap[0] != "nd" else snap[2].tolist(), obj)})
                     break
 
     for op in case["ops"]:
@@ -1528,6 +1928,38 @@ def run_session(case):
             return done()
         L = live[i]
         model, cur = L["model"], L["cur"]
+        if op["op"] == "bad-assign":
+            w = op["what"]
+            nS_, pn = len(spec_info[root(i)]["states"]), sorted(str(p_) for p_ in model.param_list)
+            try:
+                if w == "x0-short":
+                    model.initial_state = [1.0] * (nS_ - 1)
+                elif w == "x0-long":
+                    model.initial_state = [1.0] * (nS_ + 1)
+                elif w == "x0-string":
+                    model.initial_state = "abc"
+                elif w == "t0-string":
+                    model.initial_time = "abc"
+                elif w == "t0-list":
+                    model.initial_time = [0.0, 1.0]
+                elif w == "params-unknown-name":
+                    model.parameters = dict([(k_, 0.5) for k_ in pn[:1]] + [("no_such_parameter", 0.25)])
+                elif w == "params-unknown-only":
+                    model.parameters = {"no_such_parameter": 0.25}
+                elif w == "params-short-array":
+                    model.parameters = np.full(max(0, len(pn) - 1), 0.5)
+                elif w == "params-long-array":
+                    model.parameters = np.full(len(pn) + 1, 0.5)
+                tags.append("session:rejected-input:%s:ACCEPTED" % w)
+            except Exception as exc:
+                tags.append("session:rejected-input:%s:raised:%s" % (w, type(exc).__name__))
+            # whatever the attempt left behind: everything it could have touched is assigned again before the next solve
+            if w.startswith("params"):
+                cur["params"] = None
+            else:
+                cur["x0"] = cur["t0"] = None
+            L["after_bad"] = True
+            continue
         if op["op"] == "randomise":
             import scipy.stats
             pd0 = cur["params"][0] if cur["params"] else {}
@@ -1563,9 +1995,11 @@ def run_session(case):
             hist = [k for k in ("t0", "x0", "params", "grid", "forms", "method", "full_output", "includeOrigin", "entry")
                     if now[k] != L["last"][k]] or ["same"]
             if "grid" in hist:
-                rel = {"G1": "values", "G2": "superset", "G3": "subset", "G4": "interior", "Gs": "scalar", "Gz": "starts-at-t0"}
+                rel = {"G1": "values", "G2": "superset", "G3": "subset", "G4": "interior", "Gs": "scalar", "Gz": "starts-at-t0", "G5": "repeated-times"}
                 other = now["gname"] if now["gname"] != "G0" else L["last"]["gname"]
                 hist[hist.index("grid")] = "grid-" + rel.get(other, "other")
+        if L.pop("after_bad", False):
+            hist.append("after-rejected-input")
         if L.get("after_random"):       # from then on part of this instance's history
             hist = ["after-random-parameters"]
         if prev_inst[0] is not None and prev_inst[0] != i:
@@ -1612,7 +2046,18 @@ def run_session(case):
                                                  full_output=op["fo"], method=op["method"])
                 sol = res[0] if op["fo"] else res
         except Exception as exc:
-            if op["grid"] == "Gz" and type(exc).__name__ in ZERO_STEP_ERRORS and op["entry"] in ("integrate2", "integrateFuncJac"):
+            if op["entry"] in ("integrate", "solve_determ") and type(exc).__name__ in ZERO_STEP_ERRORS and not np.isfinite(R["acc_odeint"]):
+                tags.append("session:odeint-failure-reported:not-judged")
+                counts["tagged"] += 1
+                L["last"], prev_inst[0] = now, i
+                continue
+            if type(exc).__name__ in ZERO_STEP_ERRORS and op["entry"] in ("integrate2", "integrateFuncJac") and not degenerate_steps(t0v, grid) \
+                    and scipy_ode_unreliable(rhs(i, op["cfg"]), x0v, t0v, grid, op["method"]):
+                tags.append("session:scipy-ode-refuses-this-instance:not-judged")
+                counts["tagged"] += 1
+                L["last"], prev_inst[0] = now, i
+                continue
+            if degenerate_steps(t0v, grid) and type(exc).__name__ in ZERO_STEP_ERRORS and op["entry"] in ("integrate2", "integrateFuncJac"):
                 tags.append("session:zero-length-first-step:%s:not-judged" % type(exc).__name__)
                 counts["tagged"] += 1
                 L["last"], prev_inst[0] = now, i
@@ -1627,8 +2072,27 @@ def run_session(case):
         ref = np.array([R["rows"][t] for t in grid])
         snap = np.array(sol, dtype=float, copy=True)
         nv = len(viol)
+        # assumption A on THIS grid: scipy's own odeint (Lean right-hand side, no pygom) stepping through exactly the requested times.
+        # (one long step can alias a periodic rate that the union of all grids resolves: x' = c (1 + cos(2 pi t)/2) x - ... from t0 to
+        # t0 + 1 in one go returns x0 with "Integration successful." at the default tolerance)
+        gkey = (root(i), op["cfg"], tuple(grid))
+        if gkey not in grid_acc:
+            ug = sorted(set(t for t in grid if abs(t - t0v) > 4 * float(np.spacing(max(abs(t), abs(t0v))))))
+            grid_acc[gkey] = direct_solver_error(rhs(i, op["cfg"]), x0v, t0v, ug, np.array([R["rows"][t] for t in ug])) if ug else {"default": 0.0, "1e-10": 0.0}
+        dse = grid_acc[gkey]
+        if dse["1e-10"] > TOL / 100 and "method=odeint" not in sig:
+            tags.append("session:solver-inaccurate-on-this-grid:not-judged")
+            counts["tagged"] += 1
+            continue
         judge("session:%s:history=%s" % (sig, hcls), snap, ref, x0v, grid, origin, viol, margins, sig.split(":")[0],
-              R["acc_odeint"] if "method=odeint" in sig else TOL)
+              max(R["acc_odeint"], 20.0 * dse["default"]) if "method=odeint" in sig else TOL)
+        if len(viol) > nv and "method=odeint" not in sig and viol[-1]["signature"].split(":")[-1] in ("accuracy", "row-order", "rows-equal-final-state"):
+            why = scipy_ode_unreliable(rhs(i, op["cfg"]), x0v, t0v, grid, op["method"], ref=ref, full_output=op["fo"] or op["entry"] == "integrate2")
+            if why:
+                del viol[nv:]
+                tags.append("session:scipy-ode-unreliable-on-this-instance:%s:not-judged" % why)
+                counts["tagged"] += 1
+                continue
         for v in viol[nv:]:
             v["detail"] = "op=%s ; %s" % (json.dumps(op), v["detail"])
         kept.append((sol, snap, sig, hcls, len(kept)))
